@@ -66,9 +66,12 @@ pub fn read_ts_server_challenge(stream: &[u8]) -> RdpResult<Vec<u8>> {
         Ok(())
     })?;
 
-    let nego_tokens = cast!(ASN1Type::SequenceOf, ts_request["negoTokens"]).unwrap();
-    let first_nego_tokens = cast!(ASN1Type::Sequence, nego_tokens.inner[0]).unwrap();
-    let nego_token = cast!(ASN1Type::OctetString, first_nego_tokens["negoToken"]).unwrap();
+    let nego_tokens = cast!(ASN1Type::SequenceOf, ts_request["negoTokens"])?;
+    // The list of tokens could be empty
+    let first_nego_tokens = cast!(ASN1Type::Sequence, nego_tokens.inner.get(0).ok_or(
+        Error::RdpError(RdpError::new(RdpErrorKind::InvalidData, "CSSP: no negotiation token in server challenge"))
+    )?)?;
+    let nego_token = cast!(ASN1Type::OctetString, first_nego_tokens["negoToken"])?;
     Ok(nego_token.to_vec())
 }
 
@@ -100,7 +103,9 @@ pub fn create_ts_authenticate(nego: Vec<u8>, pub_key_auth: Vec<u8>) -> Vec<u8> {
 }
 
 pub fn read_public_certificate(stream: &[u8]) -> RdpResult<X509Certificate> {
-    let res = parse_x509_der(stream).unwrap();
+    let res = parse_x509_der(stream).map_err(|_| {
+        Error::RdpError(RdpError::new(RdpErrorKind::InvalidData, "CSSP: unable to parse the peer certificate"))
+    })?;
     Ok(res.1)
 }
 
